@@ -303,7 +303,9 @@ pub fn parse_ts_lit(s: &str) -> TsLit {
         let g = |i: usize| c[i].parse::<i64>().unwrap();
         return match ts_from_parts(g(1), g(2), g(3), g(4), g(5), g(6), 0) {
             Some(t) => TsLit::Exact(t),
-            // e.g. second = 60 (leap second accepted by some parsers) or day 31 in a 30 day month
+            // second = 60: a leap second for some parsers (the instant one second after :59), not a literal for others
+            None if g(6) == 60 => TsLit::Maybe(ts_from_parts(g(1), g(2), g(3), g(4), g(5), 59, 0).map(|t| t + 1_000_000)),
+            // e.g. day 31 in a 30 day month
             None => TsLit::Maybe(None),
         };
     }
@@ -315,7 +317,9 @@ pub fn parse_ts_lit(s: &str) -> TsLit {
     TsLit::No
 }
 
-pub enum IvLit { Exact(i64), No, OutOfRange }
+pub enum IvLit { Exact(i64), No, OutOfRange,
+    /// representable by the engine (millisecond range of i64) but not in the harness' microsecond domain
+    Huge }
 
 pub fn parse_iv_lit(s: &str) -> IvLit {
     let parts: Vec<&str> = s.split(':').collect();
@@ -326,7 +330,7 @@ pub fn parse_iv_lit(s: &str) -> IvLit {
     let lim = (i64::MAX / 1000) as i128;
     let part_lim = |x: i64, unit: i128| (x as i128 * unit).abs() <= lim;
     if !part_lim(h, 3600) || !part_lim(m, 60) || !part_lim(sec, 1) || total.abs() > lim { return IvLit::OutOfRange; }
-    if total.abs() > 9_000_000_000_000 { return IvLit::OutOfRange; }
+    if total.abs() > (i64::MAX / 1_000_000) as i128 { return IvLit::Huge; }
     IvLit::Exact(total as i64 * 1_000_000)
 }
 
